@@ -106,8 +106,8 @@ def _run_stream(cmd, lines, timeout, cwd=None, env=None):
         err = "timeout"
         rc = -9
     res = []
-    for l in out.splitlines():
-        l = l.strip()
+    for l in out.split("\n"):      # not splitlines(): U+2028, U+0085, VT, FF inside a JSON string are no line ends
+        l = l.strip(" \t\r")
         if not l:
             continue
         try:
